@@ -14,7 +14,11 @@ Vocabulary and helper lemmas: `StubGen/Proofs/Inference.lean` (prefix `u07_`):
                           expression, not the name `self`) or a branch of a returned conditional expression;
 * `u07_Cand body t`     — `t` is a candidate type: the type of a leaf that is neither a call nor a member
                           access and whose type is a `NamedType`/`TupleType`; or the class of a returned `self`;
-* `u07_collected body`  — the candidates in source order, without repetitions (`==`), first occurrences;
+* `u07_collected body`  — the candidates in source order, without repetitions, first occurrences; a
+                          repetition is a STRUCTURALLY equal type (`AType.beq`, i.e. `=`: the tool keys the
+                          collected types by `str(type.to_dict())`), NOT an `==` one: Python's
+                          `TupleType.__eq__` ignores the order of the element types, so de-duplication by
+                          `==` used to drop `(str, int)` after `(int, str)`;
 * `u07_keyLe`           — `inferSortKey a ≤ inferSortKey b`;
 * `u07_maxWidth`, `u07_colAt`, `u07_colType` — see section 5.
 
@@ -89,28 +93,34 @@ theorem litExpr_types :
   refine ⟨fun _ => rfl, fun _ => rfl, fun _ => rfl, fun _ _ _ _ => rfl, fun _ _ _ _ => rfl,
     fun _ _ _ _ => rfl, fun _ _ => by rw [exprToType], fun items ts h => by rw [exprToType, h]⟩
 
-/-- (2, coverage — general form) every candidate type is represented in the result: nothing returned is
-    dropped except calls, member accesses and expressions whose type is not a `NamedType`/`TupleType`
-    (`u07_Cand` spells the exceptions out) -/
+/-- (2, coverage — general form) every candidate type is ITSELF a member of the result (not merely `==`
+    to a member): nothing returned is dropped except calls, member accesses and expressions whose type
+    is not a `NamedType`/`TupleType` (`u07_Cand` spells the exceptions out) -/
 theorem inferFromReturns_covers_general (body : List Stmt) (ts : List AType)
     (h : inferFromReturns body = .ok (some (.tuple ts))) (t' : AType) (hc : u07_Cand body t') :
-    ∃ t ∈ ts, t.pyEq t' = true := by
+    t' ∈ ts := by
   obtain ⟨_, rfl⟩ := u07_infer_ok h
-  obtain ⟨x, hx, hxt⟩ := u07_collected_complete hc
-  exact ⟨x, (u07_mem_sorted_collected body x).2 hx, hxt⟩
+  exact (u07_mem_sorted_collected body t').2 (u07_collected_complete hc)
+
+/-- (2, coverage — general form, the weaker `==` reading) corollary of `inferFromReturns_covers_general`
+    by reflexivity of `==` -/
+theorem inferFromReturns_covers_general_pyEq (body : List Stmt) (ts : List AType)
+    (h : inferFromReturns body = .ok (some (.tuple ts))) (t' : AType) (hc : u07_Cand body t') :
+    ∃ t ∈ ts, t.pyEq t' = true :=
+  ⟨t', inferFromReturns_covers_general body ts h t' hc, u07_pyEq_refl t'⟩
 
 /-- (2, coverage) the inferred result types cover every returned literal: for every `return e` in `body`
-    — nested to any depth — with `e` a literal expression there is a member of the result that equals
-    (`==`) the type of `e`; for a returned conditional expression `a if c else b` the same holds for
-    each branch that is a literal; for `return self` the class of `self` is covered. -/
+    — nested to any depth — with `e` a literal expression the type of `e` is a member of the result;
+    for a returned conditional expression `a if c else b` the same holds for each branch that is a
+    literal; for `return self` the class of `self` is a member. -/
 theorem inferFromReturns_covers (body : List Stmt) (ts : List AType)
     (h : inferFromReturns body = .ok (some (.tuple ts))) :
     (∀ e, u07_ReturnIn (some e) body → u07_LitExpr e →
-        ∃ t', exprToType e = .ok t' ∧ ∃ t ∈ ts, t.pyEq t' = true) ∧
+        ∃ t', exprToType e = .ok t' ∧ t' ∈ ts) ∧
     (∀ a b e, u07_ReturnIn (some (.cond a b)) body → (e = a ∨ e = b) → u07_LitExpr e →
-        ∃ t', exprToType e = .ok t' ∧ ∃ t ∈ ts, t.pyEq t' = true) ∧
+        ∃ t', exprToType e = .ok t' ∧ t' ∈ ts) ∧
     (∀ n fq tn tq, u07_ReturnIn (some (.name n fq true tn tq)) body →
-        ∃ t ∈ ts, t.pyEq (.named tn tq) = true) := by
+        AType.named tn tq ∈ ts) := by
   refine ⟨fun e hr hl => ?_, fun a b e hr he hl => ?_, fun n fq tn tq hr => ?_⟩
   · have hf := u07_litExpr_facts hl
     exact ⟨_, u07_exprToType_eq e, inferFromReturns_covers_general body ts h _
@@ -132,19 +142,25 @@ theorem inferFromReturns_members (body : List Stmt) (ts : List AType)
   exact u07_collected_sound ((u07_mem_sorted_collected body t).1 ht)
 
 /-- (2, exactly which expressions are skipped) `t` is a candidate iff … ; together with
-    `inferFromReturns_covers_general` / `inferFromReturns_members`: up to `==` the members of the result
-    are exactly the candidates.  Skipped are therefore ONLY: bare `return`s; calls and member accesses (as
+    `inferFromReturns_covers_general` / `inferFromReturns_members`: the members of the result are
+    EXACTLY the candidates.  Skipped are therefore ONLY: bare `return`s; calls and member accesses (as
     returned expression or as a branch); leaves whose `exprToType` is not a `NamedType`/`TupleType`
     (`UnknownType`: a conditional expression inside a branch, `other` expressions). -/
 theorem members_iff_candidates (body : List Stmt) (ts : List AType)
+    (h : inferFromReturns body = .ok (some (.tuple ts))) (t : AType) :
+    t ∈ ts ↔ u07_Cand body t :=
+  ⟨inferFromReturns_members body ts h t, inferFromReturns_covers_general body ts h t⟩
+
+/-- (2, the weaker `==` reading of `members_iff_candidates`) up to `==` the members of the result are
+    exactly the candidates -/
+theorem members_iff_candidates_pyEq (body : List Stmt) (ts : List AType)
     (h : inferFromReturns body = .ok (some (.tuple ts))) (t : AType) :
     (∃ x ∈ ts, x.pyEq t = true) ↔ ∃ t', u07_Cand body t' ∧ t'.pyEq t = true := by
   constructor
   · rintro ⟨x, hx, hxt⟩
     exact ⟨x, inferFromReturns_members body ts h x hx, hxt⟩
   · rintro ⟨t', hc, htt⟩
-    obtain ⟨x, hx, hxt⟩ := inferFromReturns_covers_general body ts h t' hc
-    exact ⟨x, hx, u07_pyEq_trans hxt htt⟩
+    exact ⟨t', inferFromReturns_covers_general body ts h t' hc, htt⟩
 
 /-- (2, the statement "every member is `exprToType e` of a returned `e`" is FALSE for `return self`)
     counterexample: the member is the class of `self`, not `exprToType` of the name -/
@@ -167,35 +183,60 @@ theorem inferFromReturns_members_partial (body : List Stmt) (ts : List AType)
 
 /-! ### 3. order of the members -/
 
-/-- (3) the members are sorted by `inferSortKey` (class name; for a tuple the decimal length), no two
-    members are `==`; the sort is stable: members with the same key stand in the order of
+/-- (3) the members are sorted by `inferSortKey` (class name; for a tuple the decimal length), no
+    member occurs twice (`Nodup`: the members are pairwise structurally different — two members MAY be
+    `==`, see the example below); the sort is stable: members with the same key stand in the order of
     `u07_collected body`, i.e. in the order of their first occurrence in the source. -/
 theorem inferFromReturns_order (body : List Stmt) (ts : List AType)
     (h : inferFromReturns body = .ok (some (.tuple ts))) :
     ts.Pairwise (fun a b => inferSortKey a ≤ inferSortKey b) ∧
-    ts.Pairwise (fun a b => a.pyEq b = false) ∧
+    ts.Nodup ∧
     ts.Perm (u07_collected body) ∧
     (∀ k, ts.filter (fun x => inferSortKey x == k) = (u07_collected body).filter (fun x => inferSortKey x == k)) := by
   obtain ⟨_, rfl⟩ := u07_infer_ok h
-  exact ⟨u07_sortBy_sorted _, u07_sorted_pairwise_ne _ (u07_collected_pairwise body), sortBy_perm _ _,
+  exact ⟨u07_sortBy_sorted _, u07_sorted_nodup _ (u07_collected_nodup body), sortBy_perm _ _,
     fun k => u07_sortBy_stable k _⟩
+
+/-- (3, the former second conclusion `ts.Pairwise (fun a b => a.pyEq b = false)` is FALSE) two members
+    that are `==` (Python's `TupleType.__eq__` compares the element types as multisets) but different:
+    `if c: return 1, "a"` / `return "b", 2` keeps `(int, str)` and `(str, int)`, in source order
+    (same key `"2"`, stable sort) -/
+example :
+    inferFromReturns
+        [.if_ [.ret (some (.tuple [.int 1, .str "a"]))] none, .ret (some (.tuple [.str "b", .int 2]))]
+      = .ok (some (.tuple [.tuple [.named "int" "builtins.int", .named "str" "builtins.str"],
+                           .tuple [.named "str" "builtins.str", .named "int" "builtins.int"]])) ∧
+    (AType.tuple [.named "int" "builtins.int", .named "str" "builtins.str"]).pyEq
+        (.tuple [.named "str" "builtins.str", .named "int" "builtins.int"]) = true ∧
+    AType.tuple [.named "int" "builtins.int", .named "str" "builtins.str"]
+      ≠ .tuple [.named "str" "builtins.str", .named "int" "builtins.int"] ∧
+    ¬ [AType.tuple [.named "int" "builtins.int", .named "str" "builtins.str"],
+       AType.tuple [.named "str" "builtins.str", .named "int" "builtins.int"]].Pairwise
+        (fun a b => a.pyEq b = false) := by
+  refine ⟨rfl, by decide +kernel, fun h => ?_, fun h => ?_⟩
+  · exact absurd ((u07_beq_iff_eq _ _).2 h) (by decide +kernel)
+  · exact absurd (List.rel_of_pairwise_cons h List.mem_cons_self) (by decide +kernel)
 
 /-- (3, what "first occurrence" means) `u07_collected body` is a sublist of the candidate sequence
     (the candidates of the `return`s in source order; for a conditional expression the `if` branch before
-    the `else` branch), it has no two `==` members, and a candidate is dropped exactly when an
-    earlier kept one is `==` to it. -/
+    the `else` branch), it has no member twice, and a candidate is dropped exactly when an
+    earlier kept one is structurally equal to it (`typeInSetExact`), i.e. exactly when the same type
+    stands earlier in the candidate sequence. -/
 theorem collected_first_occurrence (body : List Stmt) :
     (u07_collected body).Sublist ((findReturns body).flatMap u07_cands) ∧
-    (u07_collected body).Pairwise (fun a b => a.pyEq b = false) ∧
+    (u07_collected body).Nodup ∧
     (∀ pre post t, (findReturns body).flatMap u07_cands = pre ++ t :: post →
         u07_collected body =
-          u07_addAll (if typeInSet t (u07_addAll [] pre) then u07_addAll [] pre else u07_addAll [] pre ++ [t]) post) := by
-  refine ⟨?_, u07_collected_pairwise body, fun pre post t hs => ?_⟩
+          u07_addAll (if typeInSetExact t (u07_addAll [] pre) then u07_addAll [] pre else u07_addAll [] pre ++ [t]) post ∧
+        (typeInSetExact t (u07_addAll [] pre) = true ↔ t ∈ pre)) := by
+  refine ⟨?_, u07_collected_nodup body, fun pre post t hs => ⟨?_, ?_⟩⟩
   · obtain ⟨m, hm, hs⟩ := u07_addAll_sublist [] ((findReturns body).flatMap u07_cands)
     unfold u07_collected
     rw [hm]; exact hs
   · unfold u07_collected
     rw [hs, u07_addAll_first]
+  · rw [u07_addAll_first_mem]
+    exact ⟨fun h => h.elim (fun h => absurd h List.not_mem_nil) id, .inr⟩
 
 /-- (3, the result in closed form) -/
 theorem inferFromReturns_eq (body : List Stmt) :
@@ -440,6 +481,24 @@ example : u07_LitExpr (.tuple [.unary "-" (.int 1), exNoneE, .str "x"]) :=
 
 def res (k : Nat) (t : AType) : Result :=
   { id := "m/f/result_" ++ toString k, name := "result_" ++ toString k, type := some t }
+
+/-- the repaired defect: `if c: return 1, "a"` / `return "b", 2`.  Both tuples are kept (the
+    de-duplication by `==` used to drop `(str, int)`, because `TupleType.__eq__` ignores the order of the
+    element types, and the function then got `result_1: int`, `result_2: str`); `createInferredResults`
+    yields two results, each the union of `int` and `str`: `result_1: union[int, str]`,
+    `result_2: union[str, int]` (members in source order per position; both positions have length 2, so
+    no `None` is added). -/
+example :
+    inferFromReturns
+        [.if_ [.ret (some (.tuple [.int 1, .str "a"]))] none, .ret (some (.tuple [.str "b", .int 2]))]
+      = .ok (some (.tuple [.tuple [exInt, exStr], .tuple [exStr, exInt]])) ∧
+    createInferredResults [.tuple [exInt, exStr], .tuple [exStr, exInt]] [] "m/f"
+      = .ok [res 1 (.union [exInt, exStr]), res 2 (.union [exStr, exInt])] ∧
+    -- what the de-duplication by `==` produced: the single tuple, hence `int` and `str`
+    typeInSet (.tuple [exStr, exInt]) [.tuple [exInt, exStr]] = true ∧
+    typeInSetExact (.tuple [exStr, exInt]) [.tuple [exInt, exStr]] = false ∧
+    createInferredResults [.tuple [exInt, exStr]] [] "m/f" = .ok [res 1 exInt, res 2 exStr] :=
+  ⟨rfl, rfl, by decide +kernel, by decide +kernel, rfl⟩
 
 /-- `return 1, "a"`: one result per position -/
 example : createInferredResults [.tuple [exInt, exStr]] [] "m/f" = .ok [res 1 exInt, res 2 exStr] := rfl
